@@ -20,6 +20,16 @@ import (
 	"github.com/dolthub/go-mysql-server/verifharness/hx/eng"
 )
 
+// Scramble turns the run seed into the seed of the root generator. hx.NewRand(seed) starts the
+// splitmix64 state at seed*gamma+c and every draw adds gamma, so consecutive seeds give the *same*
+// stream shifted by one draw; hashing the seed first makes the runs independent.
+func Scramble(seed uint64) uint64 {
+	z := (seed + 0x6A09E667F3BCC909) * 0xD6E8FEB86659FD93
+	z = (z ^ (z >> 32)) * 0xD6E8FEB86659FD93
+	z = (z ^ (z >> 32)) * 0xD6E8FEB86659FD93
+	return z ^ (z >> 32)
+}
+
 // ---------------------------------------------------------------------------------------------
 // Recording authorization handler: delegates to the real one and logs every call.
 
@@ -138,6 +148,17 @@ func NewEnv(withObjects bool) *Env {
 			}
 		}
 	}
+	return env
+}
+
+// NewBareEnv is an engine without any account (not even root) and without user tables: the target of
+// MySQLDb.LoadData.
+func NewBareEnv() *Env {
+	Install()
+	env := &Env{E: eng.New("d", "e"), sess: map[string]*sql.Context{}, conn: 5000}
+	env.Db = env.E.E.Analyzer.Catalog.MySQLDb
+	env.Db.SetPersister(memPersister{env})
+	env.Root = env.Session("root", "localhost")
 	return env
 }
 
